@@ -566,6 +566,27 @@ static int jdf_sanity_check_dataflow_naming_collisions(void)
     return rc;
 }
 
+static int jdf_sanity_check_flow_redefinitions(void)
+{
+    jdf_function_entry_t *f;
+    jdf_dataflow_t *flow1, *flow2;
+    int rc = 0;
+
+    for(f = current_jdf.functions; f != NULL; f = f->next) {
+        for(flow1 = f->dataflow; flow1 != NULL; flow1 = flow1->next) {
+            for(flow2 = flow1->next; flow2 != NULL; flow2 = flow2->next) {
+                if( !strcmp(flow1->varname, flow2->varname) ) {
+                    jdf_fatal(JDF_OBJECT_LINENO(flow2),
+                              "Function %s: flow %s is redefined here (previous definition was on line %d)\n",
+                              f->fname, flow1->varname, JDF_OBJECT_LINENO(flow1));
+                    rc = -1;
+                }
+            }
+        }
+    }
+    return rc;
+}
+
 static int jdf_sanity_check_flows_and_deps_number(void)
 {
     jdf_function_entry_t *f;
@@ -1085,6 +1106,7 @@ int jdf_sanity_checks( jdf_warning_mask_t mask )
     DO_CHECK( jdf_sanity_check_predicates_unbound() );
     DO_CHECK( jdf_sanity_check_dataflow_expressions_unbound() );
 
+    DO_CHECK( jdf_sanity_check_flow_redefinitions() );
     DO_CHECK( jdf_sanity_check_flows_and_deps_number() );
     DO_CHECK( jdf_sanity_check_dataflow_naming_collisions() );
     DO_CHECK( jdf_sanity_check_dataflow_type_consistency() );
